@@ -124,7 +124,7 @@ CHECKS["C05"] = dict(
     technique="bounded exhaustive input enumeration on the implementation: every prefix length in boundary windows of exporter-produced files, flat streams at every length around window multiples, unreadable streams",
     level_text="For 9 exporter-produced files (0.6 KiB to 3 windows; three of exactly k*65535 bytes; three whose first block ends one before / on / one after a window boundary) every prefix length (small files: all; large: +-48 around every multiple of 65535, the header end, block ends and file end) is read by the real CdnsReader from a string stream and a file stream; the reader must return exactly the blocks wholly contained in the prefix, identical to those of the full file, then throw CdnsDecoderEnd. Flat streams of n one-byte items (n within +-48 of 0, 65535, 131070, 196605) must yield exactly n values for each of 7 read operations and then CdnsDecoderEnd; never-opened / directory / missing-file streams must never yield a value. For cuts next to a multiple of 65535, a block end or the end of the file, the prefix is also read in turns with a reader over the full file while a third reader over another valid file is alive on the same thread (lockstep): each of the three must return what it returns alone.",
     level_note="Trusted: block end offsets from ref/ parse. The decoder's only position-dependent state is (window exhausted?) which changes at multiples of 65535 and at end of data; all relative positions within +-48 are covered. A coarse sweep elsewhere is not part of the claim.",
-    stages=[dict(harness="rewrite", variant="asan", args=["--mode", "prefix"])],
+    stages=[dict(harness="rewrite", variant="asan", args=["--mode", "prefix"], require=["lockstep_runs"])],
     rule="enumerated (file, prefix length, stream kind) triples + (length, operation) pairs + (unreadable stream kind, operation) pairs; non-trivial = prefix strictly inside the file, or any flat/unreadable case; all distinct",
     bound_quick="block ends: +-6 for a subset of blocks of the large files; coarse sweep step 9973", bound_thorough="+-48 around every block end; coarse sweep step 977",
     assumptions=[],
